@@ -233,7 +233,11 @@ def int_divmod(vm, a, b):
     hit = vm.path_cache.get(key)
     if hit is not None:
         return hit
-    lo, hi = z3.bounds(e)
+    lo, hi = vm.path_bounds(e)
+    if lo is not None and hi is not None and lo // b == hi // b:
+        out = (lo // b, mk_int(e - (lo // b) * b))        # the quotient is fixed by the interval
+        vm.path_cache[key] = out
+        return out
     q = vm._fresh_int('q', lo // b if lo is not None else None, hi // b if hi is not None else None).e
     r = vm._fresh_int('r', 0, b - 1).e
     z3.DEFS[q.args[0]] = lambda model, e=e, b=b: z3.evaluate(e, model) // b
@@ -922,12 +926,42 @@ def struct_pack(vm, fmt, vals):
     return mk_bytes(out)
 
 
+def explode_runs(vm, atoms, limit=64):
+    """Bytes read out of the middle of an opaque run: the run's content is uninterpreted, so byte k of run R is a
+    symbolic byte named by (R, k) - the same byte whenever it is read again, and reported to the native replay, which
+    plants its model value at that offset of the run's content."""
+    out = []
+    for x in atoms:
+        if not isinstance(x, Run):
+            out.append(x)
+            continue
+        if z3.is_expr(x.length):
+            lo, hi = vm.path_bounds(x.length)
+            if lo is None or lo != hi:
+                raise Unsupported('fixed-width read from an opaque run of symbolic length')
+            n = lo
+        else:
+            n = x.length
+        if n > limit:
+            raise Unsupported('fixed-width read of more than %d bytes from an opaque run' % limit)
+        for i in range(n):
+            off = z3.simplify(zint_(x.off) + i)
+            key = ('runbyte', x.rid, off.tid if z3.is_expr(off) else off)
+            b = vm.path_cache.get(key)
+            if b is None:
+                b = vm._fresh_int(f'runbyte:{x.rid}', 0, 255).e
+                vm.path_cache[key] = b
+                vm.run_bytes.append((x.rid, off, b))
+            out.append(b)
+    return out
+
+
 def struct_unpack(vm, fmt, data):
     order, items = parse_fmt(fmt)
     need = sum(s for s, _ in items)
-    if isinstance(data, SBytes) and data.has_runs():
-        raise Unsupported('struct.unpack on runs')
     atoms = atoms_of(data)
+    if isinstance(data, SBytes) and data.has_runs():
+        atoms = explode_runs(vm, vm.norm_atoms(list(atoms)))
     if len(atoms) != need:
         raise struct.error(f'unpack requires a buffer of {need} bytes')
     out = []
